@@ -11,16 +11,18 @@ def allowed (g : Bool) : Role → CPc → Bool
   | .none, .idle => true
   | .early, .cs1 | .early, .returned => !g
   | .waiter, .cs1 | .waiter, .gWait | .waiter, .gWoke | .waiter, .returned => g
-  | .tailer, .cs1 | .tailer, .cWait | .tailer, .cWoke | .tailer, .tail | .tailer, .dG | .tailer, .returned => g
+  | .tailer, .cs1 | .tailer, .cWait | .tailer, .cWoke | .tailer, .tail | .tailer, .tJoin | .tailer, .dG
+  | .tailer, .returned => g
   | .main, .cs1 | .main, .bSig | .main, .bMedia | .main, .bChannels | .main, .bSctp | .main, .bDtls | .main, .bIce
-  | .main, .bUpdate | .main, .ucs _ | .main, .bGraceful | .main, .bFinish | .main, .dC | .main, .returned => true
+  | .main, .bUpdate | .main, .ucs _ | .main, .bGraceful | .main, .bJoin | .main, .bFinish | .main, .dC
+  | .main, .returned => true
   | .main, .dG => g
   | _, _ => false
 
 /-- how many body steps the main caller has executed -/
 def prog : CPc → Nat
   | .bMedia => 1 | .bChannels => 2 | .bSctp => 3 | .bDtls => 4 | .bIce => 5 | .bUpdate => 6 | .ucs _ => 7
-  | .bGraceful => 8 | .bFinish => 9 | .dG => 10 | .dC => 10 | .returned => 10
+  | .bGraceful => 8 | .bJoin => 9 | .bFinish => 10 | .dG => 11 | .dC => 11 | .returned => 11
   | _ => 0
 
 /-- the caller that set the graceful flag -/
@@ -35,12 +37,19 @@ def pastDG (cl : Closer) : Bool :=
 /-- the owner has run the graceful operations -/
 def gDone (cl : Closer) : Bool :=
   match cl.role, cl.pc with
+  | .main, .bJoin | .main, .bFinish | .main, .dG | .main, .dC | .main, .returned
+  | .tailer, .tJoin | .tailer, .dG | .tailer, .returned => true
+  | _, _ => false
+
+/-- the owner has received from every data channel's `readLoopActive` -/
+def pastJoin (cl : Closer) : Bool :=
+  match cl.role, cl.pc with
   | .main, .bFinish | .main, .dG | .main, .dC | .main, .returned | .tailer, .dG | .tailer, .returned => true
   | _, _ => false
 
 /-- the caller is past its channel receive -/
 def pastWait : CPc → Bool
-  | .gWoke | .cWoke | .tail | .dG | .returned => true
+  | .gWoke | .cWoke | .tail | .tJoin | .dG | .returned => true
   | _ => false
 
 /-- what the invariant says about one caller, given the shared flags -/
@@ -52,12 +61,13 @@ structure COk (s : St) (c : Nat) (cl : Closer) : Prop where
   waiterG : cl.role = .waiter → s.graceful = true
   mainCloseDone : cl.role = .main → s.closeDone = cl.pc.isReturned
   mainLog : cl.role = .main → s.bodyLog = BStep.canon.take (prog cl.pc)
-  mainIcpt : cl.role = .main → s.interceptorCloses = (if prog cl.pc = 10 then 1 else 0)
+  mainIcpt : cl.role = .main → s.interceptorCloses = (if prog cl.pc = 11 then 1 else 0)
   mainIce : cl.role = .main → s.iceStops = (if prog cl.pc ≥ 6 ∧ cl.g = false then 1 else 0)
   ownerGDone : isOwner cl = true → s.gracefulDone = pastDG cl
   ownerOps : isOwner cl = true → s.opsCloses = (if gDone cl then 1 else 0)
   waiterPast : cl.role = .waiter → pastWait cl.pc = true → s.gracefulDone = true
   tailerPast : cl.role = .tailer → pastWait cl.pc = true → s.closeDone = true
+  ownerJoined : isOwner cl = true → pastJoin cl = true → allExited s.loops = true
 
 /-- the part of the invariant that only mentions the shared flags -/
 structure GInv (s : St) : Prop where
@@ -95,7 +105,7 @@ theorem getElem?_lt {α} {l : List α} {i : Nat} {x : α} (h : l[i]? = some x) :
 theorem COk.withClosers {s : St} {c : Nat} {cl : Closer} (h : COk s c cl) (X : List Closer) :
     COk { s with closers := X } c cl :=
   ⟨h.allowed, h.closed, h.mainIs, h.ownerIs, h.waiterG, h.mainCloseDone, h.mainLog, h.mainIcpt, h.mainIce,
-   h.ownerGDone, h.ownerOps, h.waiterPast, h.tailerPast⟩
+   h.ownerGDone, h.ownerOps, h.waiterPast, h.tailerPast, h.ownerJoined⟩
 
 
 /-- the first critical section: the stepping caller -/
@@ -110,36 +120,82 @@ theorem cstep_self_idle {s s1 : St} {c : Nat} {cl cl' : Closer}
   simp only [cstepFn, Option.some.injEq, Prod.mk.injEq] at h
   obtain ⟨rfl, rfl⟩ := h
   cases hic : s.isClosed <;> cases hgr : s.graceful <;> cases g <;>
-    constructor <;> simp_all [allowed, isOwner, pastDG, gDone, prog, BStep.canon, CPc.isReturned, pastWait]
+    constructor <;> simp_all [allowed, isOwner, pastDG, gDone, prog, BStep.canon, CPc.isReturned, pastWait, pastJoin]
+
+set_option hygiene false in
+macro "self_run_case" : tactic => `(tactic|
+  (simp [allowed] at h1 hpc <;>
+    simp [cstepFn] at h <;>
+    (first | (obtain ⟨rfl, rfl⟩ := h) | (obtain ⟨hcond, rfl, rfl⟩ := h)) <;>
+    constructor <;>
+    simp_all [allowed, isOwner, pastDG, gDone, prog, afterBody, gracefulOps, storeSection, BStep.canon,
+      CPc.isReturned, pastWait, pastJoin] <;>
+    (cases g <;> simp_all)))
+
+/-- every later step: the stepping caller (main continuation) -/
+theorem cstep_self_run_main {s s1 : St} {c : Nat} {g : Bool} {pc : CPc} {cl' : Closer}
+    (hpc : pc ≠ .idle)
+    (hc : COk s c ⟨g, .main, pc⟩) (h : cstepFn s c ⟨g, .main, pc⟩ = some (s1, cl')) : COk s1 c cl' := by
+  obtain ⟨h1, h2, h3, h4, h5, h6, h7, h8, h9, h10, h11, h12, h13, h14⟩ := hc
+  cases pc <;> self_run_case
+
+theorem cstep_self_run_none {s s1 : St} {c : Nat} {g : Bool} {pc : CPc} {cl' : Closer}
+    (hpc : pc ≠ .idle)
+    (hc : COk s c ⟨g, .none, pc⟩) (h : cstepFn s c ⟨g, .none, pc⟩ = some (s1, cl')) : COk s1 c cl' := by
+  obtain ⟨h1, h2, h3, h4, h5, h6, h7, h8, h9, h10, h11, h12, h13, h14⟩ := hc
+  cases pc <;> self_run_case
+
+theorem cstep_self_run_early {s s1 : St} {c : Nat} {g : Bool} {pc : CPc} {cl' : Closer}
+    (hpc : pc ≠ .idle)
+    (hc : COk s c ⟨g, .early, pc⟩) (h : cstepFn s c ⟨g, .early, pc⟩ = some (s1, cl')) : COk s1 c cl' := by
+  obtain ⟨h1, h2, h3, h4, h5, h6, h7, h8, h9, h10, h11, h12, h13, h14⟩ := hc
+  cases pc <;> self_run_case
+
+theorem cstep_self_run_waiter {s s1 : St} {c : Nat} {g : Bool} {pc : CPc} {cl' : Closer}
+    (hpc : pc ≠ .idle)
+    (hc : COk s c ⟨g, .waiter, pc⟩) (h : cstepFn s c ⟨g, .waiter, pc⟩ = some (s1, cl')) : COk s1 c cl' := by
+  obtain ⟨h1, h2, h3, h4, h5, h6, h7, h8, h9, h10, h11, h12, h13, h14⟩ := hc
+  cases pc <;> self_run_case
+
+theorem cstep_self_run_tailer {s s1 : St} {c : Nat} {g : Bool} {pc : CPc} {cl' : Closer}
+    (hpc : pc ≠ .idle)
+    (hc : COk s c ⟨g, .tailer, pc⟩) (h : cstepFn s c ⟨g, .tailer, pc⟩ = some (s1, cl')) : COk s1 c cl' := by
+  obtain ⟨h1, h2, h3, h4, h5, h6, h7, h8, h9, h10, h11, h12, h13, h14⟩ := hc
+  cases pc <;> self_run_case
 
 /-- every later step: the stepping caller -/
 theorem cstep_self_run {s s1 : St} {c : Nat} {cl cl' : Closer}
     (hpc : cl.pc ≠ .idle)
     (hc : COk s c cl) (h : cstepFn s c cl = some (s1, cl')) : COk s1 c cl' := by
   obtain ⟨g, role, pc⟩ := cl
-  obtain ⟨h1, h2, h3, h4, h5, h6, h7, h8, h9, h10, h11, h12, h13⟩ := hc
-  cases pc <;> cases role <;> simp [allowed] at h1 hpc <;>
-    simp [cstepFn] at h <;>
-    (first | (obtain ⟨rfl, rfl⟩ := h) | (obtain ⟨hcond, rfl, rfl⟩ := h)) <;>
-    constructor <;>
-    simp_all [allowed, isOwner, pastDG, gDone, prog, afterBody, gracefulOps, storeSection, BStep.canon,
-      CPc.isReturned, pastWait] <;>
-    (cases g <;> simp_all)
+  cases role
+  · exact cstep_self_run_none hpc hc h
+  · exact cstep_self_run_early hpc hc h
+  · exact cstep_self_run_waiter hpc hc h
+  · exact cstep_self_run_tailer hpc hc h
+  · exact cstep_self_run_main hpc hc h
 
 /-- the first critical section: every other caller -/
 theorem cstep_other_idle {s s1 : St} {c c2 : Nat} {cl cl' cl2 : Closer}
     (hm : s.mainIdx.isSome = s.isClosed) (ho : s.gOwner.isSome = s.graceful)
-    (hgc : s.graceful = true → s.isClosed = true)
     (hpc : cl.pc = .idle) (h : cstepFn s c cl = some (s1, cl'))
     (h2 : COk s c2 cl2) : COk s1 c2 cl2 := by
   obtain ⟨g, role, pc⟩ := cl
   subst hpc
   simp only [cstepFn, Option.some.injEq, Prod.mk.injEq] at h
   obtain ⟨rfl, rfl⟩ := h
-  obtain ⟨k1, k2, k3, k4, k5, k6, k7, k8, k9, k10, k11, k12, k13⟩ := h2
-  obtain ⟨g2, role2, pc2⟩ := cl2
-  cases hic : s.isClosed <;> cases hgr : s.graceful <;> cases g <;> cases role2 <;>
-    constructor <;> simp_all [isOwner]
+  obtain ⟨k1, k2, k3, k4, k5, k6, k7, k8, k9, k10, k11, k12, k13, k14⟩ := h2
+  refine ⟨k1, fun _ => rfl, ?_, ?_, ?_, k6, k7, k8, k9, k10, k11, k12, k13, k14⟩
+  · intro hr
+    have hk := k3 hr
+    have : s.isClosed = true := by rw [← hm, hk]; rfl
+    simp [this, hk]
+  · intro hr
+    have hk := k4 hr
+    have : s.graceful = true := by rw [← ho, hk]; rfl
+    simp [this, hk]
+  · intro hr
+    simp [k5 hr]
 
 /-- what a step after the first critical section can change: only the stepping caller's "own" flags -/
 theorem cstep_frame {s s1 : St} {c : Nat} {cl cl' : Closer}
@@ -148,7 +204,8 @@ theorem cstep_frame {s s1 : St} {c : Nat} {cl cl' : Closer}
     ∧ (cl.role ≠ .main → s1.closeDone = s.closeDone ∧ s1.bodyLog = s.bodyLog
         ∧ s1.interceptorCloses = s.interceptorCloses ∧ s1.iceStops = s.iceStops)
     ∧ (isOwner cl = false → s1.gracefulDone = s.gracefulDone ∧ s1.opsCloses = s.opsCloses)
-    ∧ (s.closeDone = true → s1.closeDone = true) ∧ (s.gracefulDone = true → s1.gracefulDone = true) := by
+    ∧ (s.closeDone = true → s1.closeDone = true) ∧ (s.gracefulDone = true → s1.gracefulDone = true)
+    ∧ s1.loops = s.loops := by
   obtain ⟨g, role, pc⟩ := cl
   cases pc <;> cases role <;> simp [allowed] at hal hpc <;>
     simp [cstepFn] at h <;>
@@ -159,7 +216,7 @@ theorem cstep_frame {s s1 : St} {c : Nat} {cl cl' : Closer}
 theorem cstep_other_run {s s1 : St} {c c2 : Nat} {cl cl' cl2 : Closer}
     (hpc : cl.pc ≠ .idle) (hc : COk s c cl) (h : cstepFn s c cl = some (s1, cl')) (hne : c2 ≠ c)
     (h2 : COk s c2 cl2) : COk s1 c2 cl2 := by
-  obtain ⟨e1, e2, e3, e4, e5, e6, e7, e8⟩ := cstep_frame hpc hc.allowed h
+  obtain ⟨e1, e2, e3, e4, e5, e6, e7, e8, e9⟩ := cstep_frame hpc hc.allowed h
   have hmain : cl2.role = .main → cl.role ≠ .main := fun h2m hm => by
     have a := hc.mainIs hm
     have b := h2.mainIs h2m
@@ -175,7 +232,7 @@ theorem cstep_other_run {s s1 : St} {c c2 : Nat} {cl cl' cl2 : Closer}
       exact absurd (Option.some.inj b).symm hne
   refine ⟨h2.allowed, fun hp => e1 ▸ h2.closed hp, fun hm => e3 ▸ h2.mainIs hm, fun ho => e4 ▸ h2.ownerIs ho,
     fun hw => e2 ▸ h2.waiterG hw, ?_, ?_, ?_, ?_, ?_, ?_, fun hw hp => e8 (h2.waiterPast hw hp),
-    fun ht hp => e7 (h2.tailerPast ht hp)⟩
+    fun ht hp => e7 (h2.tailerPast ht hp), fun ho hp => e9 ▸ h2.ownerJoined ho hp⟩
   · intro hm; rw [(e5 (hmain hm)).1]; exact h2.mainCloseDone hm
   · intro hm; rw [(e5 (hmain hm)).2.1]; exact h2.mainLog hm
   · intro hm; rw [(e5 (hmain hm)).2.2.1]; exact h2.mainIcpt hm
@@ -185,7 +242,7 @@ theorem cstep_other_run {s s1 : St} {c c2 : Nat} {cl cl' cl2 : Closer}
 
 theorem cstepFn_closers {s s1 : St} {c : Nat} {cl cl' : Closer} (h : cstepFn s c cl = some (s1, cl')) :
     s1.closers = s.closers ∧ s1.updaters = s.updaters ∧ s1.retest = s.retest ∧ s1.apiLog = s.apiLog
-      ∧ s1.negVersion = s.negVersion := by
+      ∧ s1.negVersion = s.negVersion ∧ s1.loops = s.loops := by
   obtain ⟨g, role, pc⟩ := cl
   cases pc <;> simp [cstepFn] at h <;>
     first
